@@ -47,6 +47,18 @@ class Result:
         self.extra = {}
 
 
+def lean_status(fname):
+    """result of the last `lemmas/check_all.sh` (run by MANIFEST.setup_cmd) for one lemma file"""
+    try:
+        with open(os.path.join(VERIF, "lemmas", "STATUS.json")) as f:
+            st = json.load(f).get(fname)
+    except Exception:
+        st = None
+    if st == "ok":
+        return "proved in Lean 4 + Mathlib (lemmas/%s, type-checked by lemmas/check_all.sh at setup)" % fname
+    return "Lean file lemmas/%s present but not (re)checked in this sandbox state (%s): treated as ASSUMED bridge" % (fname, st)
+
+
 def cache_key(text):
     return hashlib.sha256(text.encode()).hexdigest()
 
